@@ -280,27 +280,45 @@ func (p dtoPkg) StarlarkStructured(macrosFirst bool) map[string]string {
 // have no Makefile spelling). The command of a Makefile target is always "make <goal>".
 func (p dtoPkg) Makefile() string {
 	var sb strings.Builder
-	for _, t := range p.Targets {
+	for ti, t := range p.Targets {
+		// every other target writes its annotation in YAML block style (nested, indented lists
+		// and maps) instead of flow style: both are what users write
+		block := ti%2 == 1
+		lst := func(k string, xs []string) {
+			if len(xs) == 0 {
+				return
+			}
+			if !block {
+				fmt.Fprintf(&sb, "# %s: %s\n", k, jlist(xs))
+				return
+			}
+			fmt.Fprintf(&sb, "# %s:\n", k)
+			for _, x := range xs {
+				fmt.Fprintf(&sb, "#   - %s\n", jq(x))
+			}
+		}
 		sb.WriteString("# @grog\n")
 		fmt.Fprintf(&sb, "# name: %s\n", jq(t.Name))
-		if len(t.Deps) > 0 {
-			fmt.Fprintf(&sb, "# dependencies: %s\n", jlist(t.Deps))
-		}
-		if len(t.Inputs) > 0 {
-			fmt.Fprintf(&sb, "# inputs: %s\n", jlist(t.Inputs))
-		}
-		if len(t.Outputs) > 0 {
-			fmt.Fprintf(&sb, "# outputs: %s\n", jlist(t.Outputs))
-		}
-		if len(t.Tags) > 0 {
-			fmt.Fprintf(&sb, "# tags: %s\n", jlist(t.Tags))
-		}
+		lst("dependencies", t.Deps)
+		lst("inputs", t.Inputs)
+		lst("outputs", t.Outputs)
+		lst("tags", t.Tags)
 		if len(t.Fingerprint) > 0 {
-			fmt.Fprintf(&sb, "# fingerprint: %s\n", jmap(t.Fingerprint))
+			if block {
+				sb.WriteString("# fingerprint:\n")
+				var ks []string
+				for k := range t.Fingerprint {
+					ks = append(ks, k)
+				}
+				sort.Strings(ks)
+				for _, k := range ks {
+					fmt.Fprintf(&sb, "#   %s: %s\n", jq(k), jq(t.Fingerprint[k]))
+				}
+			} else {
+				fmt.Fprintf(&sb, "# fingerprint: %s\n", jmap(t.Fingerprint))
+			}
 		}
-		if len(t.Platforms) > 0 {
-			fmt.Fprintf(&sb, "# platforms: %s\n", jlist(t.Platforms))
-		}
+		lst("platforms", t.Platforms)
 		if t.Timeout != "" {
 			fmt.Fprintf(&sb, "# timeout: %s\n", jq(t.Timeout))
 		}
